@@ -8,9 +8,9 @@
     sanitize_total stripentities_total sanitize_css_total
     only_safe_elems_attrs no_comments
     wellnested_in_out end_tags_safe dropped_subtree_absent
-    uri_attrs_checked uri_attrs_scheme_mod_punct uri_attrs_safe_partial scheme_punct_witness
+    uri_attrs_checked uri_attrs_safe scheme_punct_rejected
     css_comments_dotall css_expression_classes_cover css_decode_fixed css_no_expression
-    css_urls_scheme_mod_punct css_urls_safe_partial css_scheme_punct_witness
+    css_urls_safe css_scheme_punct_rejected
     attr_value_roundtrip uri_attrs_scheme_serialised default_config_script_free
 -/
 import Genshi.Lemmas.SanNest
@@ -210,31 +210,15 @@ theorem uri_attrs_checked {cfg : Cfg} {s o : Stream} (h : sanitize cfg s = .ok o
     simpa using hu
   | other hw hns hnc => exact absurd rfl (hns tag attrs)
 
-/-
-  Full statement (the property): for every URI attribute `(n, v)` of the output,
-      browserScheme v = none ∨ ∃ sch, browserScheme v = some sch ∧ sch ∈ cfg.safeSchemes.
-  It is FALSE of the code: `is_safe_uri` deletes every non-alphanumeric character before it
-  compares, so `h-t-t-p:` counts as `http` while a browser reads the scheme `h-t-t-p`
-  (`scheme_punct_witness`, known finding C06-scheme-punct).  Proved below for every scheme
-  without `+`, `-`, `.` — the only characters of a syntactically valid scheme that the code
-  deletes and a browser keeps.
--/
-/-- What holds for EVERY emitted URI attribute, without exception: the scheme the browser reads,
-    with its `+ - .` removed, is a safe scheme (so the only deviation from the full statement is
-    the punctuation of finding C06-scheme-punct). -/
-theorem uri_attrs_scheme_mod_punct {cfg : Cfg} {s o : Stream} (h : sanitize cfg s = .ok o)
+/-- **Every emitted URI attribute has a safe scheme, as a browser reads it** (white space and
+    control characters removed, the text before the first colon if it has the syntax of a
+    scheme, ASCII case folded) — for all configurations and all input streams.  Full strength
+    since the repair of `is_safe_uri` (it used to delete `+ - .`, so `h-t-t-p:` counted as `http`). -/
+theorem uri_attrs_safe {cfg : Cfg} {s o : Stream} (h : sanitize cfg s = .ok o)
     {tag : QName} {attrs : AttrList} (hm : Event.start tag attrs ∈ o)
     {a : QName × Str} (ha : a ∈ attrs) (hu : a.1.text ∈ cfg.uriAttrs)
-    {sch : Str} (hb : browserScheme a.2 = some sch) : dropPunct sch ∈ cfg.safeSchemes :=
-  isSafeUri_sound_mod_punct (uri_attrs_checked h hm ha hu) hb
-
-/-- search: uri -/
-theorem uri_attrs_safe_partial {cfg : Cfg} {s o : Stream} (h : sanitize cfg s = .ok o)
-    {tag : QName} {attrs : AttrList} (hm : Event.start tag attrs ∈ o)
-    {a : QName × Str} (ha : a ∈ attrs) (hu : a.1.text ∈ cfg.uriAttrs)
-    {sch : Str} (hb : browserScheme a.2 = some sch) (hp : ∀ c ∈ sch, c ≠ '+' ∧ c ≠ '-' ∧ c ≠ '.') :
-    sch ∈ cfg.safeSchemes :=
-  isSafeUri_sound (uri_attrs_checked h hm ha hu) hb hp
+    {sch : Str} (hb : browserScheme a.2 = some sch) : sch ∈ cfg.safeSchemes :=
+  isSafeUri_sound (uri_attrs_checked h hm ha hu) hb
 
 def hrefName : QName := ⟨[], ['h', 'r', 'e', 'f']⟩
 def aTag : QName := ⟨[], ['a']⟩
@@ -242,13 +226,11 @@ def scriptTag : QName := ⟨[], ['s', 'c', 'r', 'i', 'p', 't']⟩
 def punctUri : Str := ['h', '-', 't', '-', 't', '-', 'p', ':', '/', '/', 'x']
 def jsUri : Str := ['j', 'a', 'v', 'a', '\t', 's', 'c', 'r', 'i', 'p', 't', ':', 'x']
 
-/-- Negation witness of the full statement: the default configuration emits `href="h-t-t-p://x"`,
-    whose scheme as a browser reads it is `h-t-t-p`, not a safe scheme. -/
-theorem scheme_punct_witness :
-    sanitize Cfg.default [.start aTag [(hrefName, punctUri)], .end_ aTag] =
-        .ok [.start aTag [(hrefName, punctUri)], .end_ aTag] ∧
-      browserScheme punctUri = some ['h', '-', 't', '-', 't', '-', 'p'] ∧
-      ['h', '-', 't', '-', 't', '-', 'p'] ∉ Cfg.default.safeSchemes := by
+/-- Regression of finding C06-scheme-punct (fixed): `href="h-t-t-p://x"`, whose scheme a browser
+    reads as `h-t-t-p`, is dropped now. -/
+theorem scheme_punct_rejected :
+    sanitize Cfg.default [.start aTag [(hrefName, punctUri)], .end_ aTag] = .ok [.start aTag [], .end_ aTag] ∧
+      browserScheme punctUri = some ['h', '-', 't', '-', 't', '-', 'p'] := by
   decide +kernel
 
 -- non-vacuity: a URI with an embedded tab is read as `javascript` by the browser-side reader,
@@ -260,7 +242,7 @@ example : sanitize Cfg.default
     .ok [.start aTag [], .end_ aTag] := by decide +kernel
 -- `end_tags_safe` needs well-nested input: a stray END event is passed through
 example : sanitize Cfg.default [.end_ scriptTag] = .ok [.end_ scriptTag] := by decide +kernel
--- `uri_attrs_safe_partial` is not vacuous: an accepted URI with a plain scheme
+-- `uri_attrs_safe` is not vacuous: an accepted URI with a scheme
 example : sanitize Cfg.default [.start aTag [(hrefName, ['H', 't', 'T', 'p', ':', 'x'])], .end_ aTag] =
     .ok [.start aTag [(hrefName, ['H', 't', 'T', 'p', ':', 'x'])], .end_ aTag] ∧
     browserScheme ['H', 't', 'T', 'p', ':', 'x'] = some ['h', 't', 't', 'p'] := by decide +kernel
@@ -320,32 +302,16 @@ theorem css_no_expression {cfg : Cfg} (hcfg : CssNamesPlain cfg) {s o : Stream} 
   obtain ⟨x, decls, hd, hj⟩ := style_attr_emitted h hm ha hs hu
   rw [hj]; exact sanitizeCss_no_expression css_comments_dotall hcfg hd
 
-/-
-  Full statement (the property): for every `url(` argument `arg` of the decoded style value,
-      browserScheme (trimArg arg) = none ∨ ∃ sch, … = some sch ∧ sch ∈ cfg.safeSchemes.
-  FALSE of the code for the same reason as `uri_attrs_safe_partial` (`css_scheme_punct_witness`,
-  finding C06-scheme-punct); proved for every scheme without `+`, `-`, `.`.
--/
-/-- What holds for EVERY `url(` argument of an emitted style value, without exception: the scheme
-    the browser reads in it, with its `+ - .` removed, is a safe scheme. -/
-theorem css_urls_scheme_mod_punct {cfg : Cfg} (hcfg : CssNamesPlain cfg) {s o : Stream} (h : sanitize cfg s = .ok o)
+/-- **Every `url(` argument of an emitted style value, as the browser decodes and reads it, has
+    a safe scheme** (full strength since the repair of `is_safe_uri`). -/
+theorem css_urls_safe {cfg : Cfg} (hcfg : CssNamesPlain cfg) {s o : Stream} (h : sanitize cfg s = .ok o)
     {tag : QName} {attrs : AttrList} (hm : Event.start tag attrs ∈ o)
     {a : QName × Str} (ha : a ∈ attrs) (hs : a.1.text = styleWord) (hu : styleWord ∉ cfg.uriAttrs)
     {arg : Str} (harg : arg ∈ urlArgs (cssDecode a.2))
-    {sch : Str} (hb : browserScheme (trimArg arg) = some sch) : dropPunct sch ∈ cfg.safeSchemes := by
+    {sch : Str} (hb : browserScheme (trimArg arg) = some sch) : sch ∈ cfg.safeSchemes := by
   obtain ⟨x, decls, hd, hj⟩ := style_attr_emitted h hm ha hs hu
   rw [hj] at harg
   exact sanitizeCss_urls_safe css_comments_dotall hcfg hd arg harg sch hb
-
-/-- search: css -/
-theorem css_urls_safe_partial {cfg : Cfg} (hcfg : CssNamesPlain cfg) {s o : Stream} (h : sanitize cfg s = .ok o)
-    {tag : QName} {attrs : AttrList} (hm : Event.start tag attrs ∈ o)
-    {a : QName × Str} (ha : a ∈ attrs) (hs : a.1.text = styleWord) (hu : styleWord ∉ cfg.uriAttrs)
-    {arg : Str} (harg : arg ∈ urlArgs (cssDecode a.2))
-    {sch : Str} (hb : browserScheme (trimArg arg) = some sch) (hp : ∀ c ∈ sch, c ≠ '+' ∧ c ≠ '-' ∧ c ≠ '.') :
-    sch ∈ cfg.safeSchemes := by
-  have := css_urls_scheme_mod_punct hcfg h hm ha hs hu harg hb
-  rwa [dropPunct_of_plain hp] at this
 
 /-- a configuration that allows `style` attributes -/
 def styleCfg : Cfg := { Cfg.default with safeAttrs := styleWord :: Cfg.default.safeAttrs }
@@ -354,13 +320,9 @@ def divTag : QName := ⟨[], ['d', 'i', 'v']⟩
 def punctCss : Str := ['c', 'o', 'l', 'o', 'r', ':', ' ', 'u', 'r', 'l', '(', 'h', '-', 't', '-', 't', '-', 'p',
   ':', 'x', ')']
 
-/-- Negation witness of the full statement for `url()`: `color: url(h-t-t-p:x)` is emitted. -/
-theorem css_scheme_punct_witness :
-    sanitize styleCfg [.start divTag [(styleName, punctCss)], .end_ divTag] =
-        .ok [.start divTag [(styleName, punctCss)], .end_ divTag] ∧
-      urlArgs (cssDecode punctCss) = [['h', '-', 't', '-', 't', '-', 'p', ':', 'x']] ∧
-      browserScheme (trimArg ['h', '-', 't', '-', 't', '-', 'p', ':', 'x']) = some ['h', '-', 't', '-', 't', '-', 'p'] ∧
-      ['h', '-', 't', '-', 't', '-', 'p'] ∉ styleCfg.safeSchemes := by
+/-- Regression of finding C06-scheme-punct for `url()`: `color: url(h-t-t-p:x)` is dropped now. -/
+theorem css_scheme_punct_rejected :
+    sanitize styleCfg [.start divTag [(styleName, punctCss)], .end_ divTag] = .ok [.start divTag [], .end_ divTag] := by
   decide +kernel
 
 -- non-vacuity: the hypotheses hold for the default sets, and the filter acts on encoded payloads
@@ -394,16 +356,15 @@ example : sanitizeCss styleCfg ['t', 'o', 'p', ':', '\\', '5', 'c', ' ', '7', '5
 theorem attr_value_roundtrip (q : Bool) (v : Str) :
     stripentities (Genshi.Escape.escapeSpec q v) = .ok v := stripentities_escape q v
 
-/-- The URI guarantee (in its exception-free form, see `uri_attrs_scheme_mod_punct`) for the value as
-    written by a serializer and read back. -/
+/-- The URI guarantee for the value as written by a serializer and read back. -/
 theorem uri_attrs_scheme_serialised {cfg : Cfg} {s o : Stream} (h : sanitize cfg s = .ok o)
     {tag : QName} {attrs : AttrList} (hm : Event.start tag attrs ∈ o)
     {a : QName × Str} (ha : a ∈ attrs) (hu : a.1.text ∈ cfg.uriAttrs)
     {back sch : Str} (hr : stripentities (Genshi.Escape.escapeSpec true a.2) = .ok back)
-    (hb : browserScheme back = some sch) : dropPunct sch ∈ cfg.safeSchemes := by
+    (hb : browserScheme back = some sch) : sch ∈ cfg.safeSchemes := by
   rw [attr_value_roundtrip] at hr
   cases hr
-  exact uri_attrs_scheme_mod_punct h hm ha hu hb
+  exact uri_attrs_safe h hm ha hu hb
 
 -- non-vacuity: a value with all four escaped characters
 example : stripentities (Genshi.Escape.escapeSpec true ['a', '&', '<', '"', '>', '&', 'l', 't', ';']) =
